@@ -424,7 +424,7 @@ func gen() ([]byte, error) {
 	}
 	var b bytes.Buffer
 	b.WriteString("(* generated by translator unit t4auth from pkg/auth/token.go, pkg/util/util/util.go, server/service.go — do not edit *)\n")
-	b.WriteString("From FRP Require Import Model.AuthShape.\nOpen Scope Z_scope.\nOpen Scope string_scope.\n\n")
+	b.WriteString("From FRP Require Import Model.AuthShape.\nLocal Open Scope Z_scope.\nLocal Open Scope string_scope.\n\n")
 	b.WriteString("Definition T4auth_translated : bool := true.\n\n")
 	for _, m := range []struct{ fn, def string }{{"VerifyLogin", "gen_token_verify_login"}, {"VerifyPing", "gen_token_verify_ping"}, {"VerifyNewWorkConn", "gen_token_verify_workconn"}} {
 		fd := findFunc(tf, "TokenAuthSetterVerifier", m.fn)
